@@ -83,23 +83,6 @@ func scenarioC08(r *Run) {
 		panic("C08 needs the worker built against the instrumented copy (-tags verifinstr)")
 	}
 	t := r.T
-	perms := 0
-	SetPermHook(func(n int) []int {
-		p := t.Perm(n, "maporder")
-		for i, v := range p {
-			if i != v {
-				perms++
-				break
-			}
-		}
-		return p
-	})
-	defer SetPermHook(nil)
-	defer func() {
-		if perms > 0 {
-			r.Faults["maporder"] += perms
-		}
-	}()
 	maxExtra := 6
 	if t.Bool(1, 4, "c08.many") {
 		maxExtra = 40
@@ -179,6 +162,42 @@ func c08Buckets(r *Run, t *tape.Tape, sp Spelling, maxExtra int) {
 		if !bytes.Equal(pb, want) && !hasFloat(l.Prot) && broken == "" {
 			r.Fail("protected-encoding-differs-from-reference", "ProtectedHeader.MarshalCBOR differs from the deterministic encoding of the same map computed by the reference encoder\n got: %s\nwant: %s", hexShort(pb), hexShort(want))
 			return
+		}
+		// history: the caller overwrites one parameter of the SAME map in
+		// place (same number of entries) and encodes again: the bytes must
+		// follow the map, not an earlier encoding of it
+		if broken == "" && len(l.Prot) > 0 && !hasFloat(l.Prot) {
+			i := t.Choose(len(l.Prot), "c08.edit.which")
+			lbl, isInt := l.Prot[i].K.Int64()
+			isInt = isInt && l.Prot[i].K.IsInt()
+			if !(isInt && (lbl == refcose.LAlg || lbl == refcose.LCrit || lbl == refcose.LContentTyp || lbl == refcose.LTyp || lbl == refcose.LKid || lbl == refcose.LIV || lbl == refcose.LPartialIV || lbl == refcose.LCWTClaims)) && !critNames(l.Prot, l.Prot[i].K) {
+				nv := refcbor.Bstr(t.Bytes(1+t.Choose(12, "c08.edit.n"), "c08.edit.v"))
+				var gk any
+				found := false
+				for k := range h.Protected {
+					if kv, ok := asInt64(k); ok && isInt && kv == lbl {
+						gk, found = k, true
+					} else if ks, ok := k.(string); ok && !isInt && ks == string(l.Prot[i].K.Data) {
+						gk, found = k, true
+					}
+				}
+				if found {
+					h.Protected[gk] = append([]byte{}, nv.Data...)
+					l2 := l.Prot.clone()
+					l2[i].V = nv
+					var pb2 []byte
+					var e2 error
+					r.Lib(func() { pb2, e2 = h.Protected.MarshalCBOR() })
+					want2 := refcbor.Encode(refcbor.Bstr(refcbor.CanonicalBytes(bucketItem(l2, nil))))
+					r.Check()
+					if e2 != nil || !bytes.Equal(pb2, want2) {
+						r.Fail("encoding-ignores-in-place-edit/ProtectedHeader", "after overwriting one parameter of the same map in place, MarshalCBOR does not give the encoding of the map as it is now (%v)\n got: %s\nwant: %s", e2, hexShort(pb2), hexShort(want2))
+						return
+					}
+					r.Probe("in-place-edit-reencoded")
+					pb, l.Prot = pb2, l2
+				}
+			}
 		}
 		var back cose.ProtectedHeader
 		var err error
@@ -483,4 +502,19 @@ func decoderNameFor(what string) string {
 		return "SignMessage"
 	}
 	return what
+}
+
+// critNames reports whether the bucket's crit entry names the label.
+func critNames(b Bucket, label *refcbor.Item) bool {
+	c := b.lookup(refcose.LCrit)
+	if c == nil {
+		return false
+	}
+	id := refcbor.KeyIdentity(label)
+	for _, e := range c.Elems {
+		if refcbor.KeyIdentity(e) == id {
+			return true
+		}
+	}
+	return false
 }
